@@ -1,11 +1,12 @@
 #!/bin/bash
 # Re-runs the quick check of each seeded change's property against a scratch worktree with the change applied and
 # records whether a natively confirmed VIOLATION is reported. Output: seeded/MATRIX.txt
+# usage: seed_matrix.sh [seed-id ...]   (no arguments: all seeds; with arguments: only those, their lines are replaced)
 cd /verif
 out=seeded/MATRIX.txt
-: > $out
-for d in seeded/*/; do
-  id=$(basename $d); prop=${id%-*}
+if [ $# -eq 0 ]; then : > $out; set -- $(ls seeded | grep -E '^C[0-9]+-[0-9]+$'); else for id in "$@"; do sed -i "/^$id /d" $out; done; fi
+for id in "$@"; do
+  d=seeded/$id/; prop=${id%-*}
   [ -f $d/patch.diff ] || continue
   start=$(date +%s)
   res=$(tools/try_seed.sh $prop $d/patch.diff 2>&1)
@@ -15,3 +16,4 @@ for d in seeded/*/; do
   [ "$rc" = 2 ] && echo "$res" | grep -q "PATCH DOES NOT APPLY" && first="PATCH DOES NOT APPLY"
   echo "$id rc=$rc violations=$nv $(( $(date +%s) - start ))s $first" | tee -a $out
 done
+sort -V -o $out $out
